@@ -106,10 +106,21 @@ func TestReplayLeaseExpiredRecordReused(t *testing.T) {
 	cs := &distCase{Mode: "lease", CIDR: "10.0.0.0/29", Unit: 32, Grace: 0, QOrder: idOrder,
 		Ops: []op{{"alloc", 0, 0}, {"tick", 0, 0}, {"tick", 0, 0}, {"alloc", 1, 0}}}
 	expectDist(t, "expired-record", cs, runCfg{}, "C12/dist-lease/store-duplicate-address/expired-record")
-	// KF-C12-7: the same when the cleanup's own store call fails (#1 Query, #2 Put, #3 Query, #4 Query)
+	// KF-C12-7: one tick later the cleanup pass is due to remove the record (stored epoch 2 < 5-2), but its own
+	// store call fails (#1 Query (Start), #2 Put, #3 Query (tick->3), #4 Query (tick->4), #5 Query (tick->5) fails):
+	// the record stays and the address is handed out.  (A failure in a pass that would not have removed the record
+	// anyway - e.g. #4 here - is plain KF-C12-6.)
 	cs2 := &distCase{Mode: "lease", CIDR: "10.0.0.0/29", Unit: 32, Grace: 0, QOrder: idOrder,
+		Ops: []op{{"alloc", 0, 0}, {"tick", 0, 0}, {"tick", 0, 0}, {"tick", 0, 0}, {"alloc", 1, 0}}}
+	expectDist(t, "expired-record-cleanup-failed", cs2, runCfg{failAt: map[int]bool{5: true}}, "C12/dist-lease/store-duplicate-address/expired-record-cleanup-failed")
+	// the same when the pass's Delete of that record fails (#5 Query, #6 Delete)
+	cs3 := &distCase{Mode: "lease", CIDR: "10.0.0.0/29", Unit: 32, Grace: 0, QOrder: idOrder,
+		Ops: []op{{"alloc", 0, 0}, {"tick", 0, 0}, {"tick", 0, 0}, {"tick", 0, 0}, {"alloc", 1, 0}}}
+	expectDist(t, "expired-record-cleanup-delete-failed", cs3, runCfg{failAt: map[int]bool{6: true}}, "C12/dist-lease/store-duplicate-address/expired-record-cleanup-failed")
+	// a failure in a cleanup pass that was not due to remove the record is not KF-C12-7 but the plain window of KF-C12-6
+	cs4 := &distCase{Mode: "lease", CIDR: "10.0.0.0/29", Unit: 32, Grace: 0, QOrder: idOrder,
 		Ops: []op{{"alloc", 0, 0}, {"tick", 0, 0}, {"tick", 0, 0}, {"alloc", 1, 0}}}
-	expectDist(t, "expired-record-cleanup-failed", cs2, runCfg{failAt: map[int]bool{4: true}}, "C12/dist-lease/store-duplicate-address/expired-record-cleanup-failed")
+	expectDist(t, "expired-record-irrelevant-cleanup-failure", cs4, runCfg{failAt: map[int]bool{4: true}}, "C12/dist-lease/store-duplicate-address/expired-record")
 }
 
 // KF-C12-6b: the epoch counter is not persisted: a restarted node counts from 2 again while the records keep
